@@ -729,6 +729,20 @@ class Translator:
                 progress = True
         for k in pending:
             self.gaps.append("%s.%s: %s" % (k[0], k[1], errors.get(k, "not translated")))
+        # which shape of to_root is this?  (both are translated; the hand model is the repaired one)
+        tr_node = self.nodes.get(("ArrayMorphology", "to_root"))
+        self.shape = "to_root: not found"
+        if tr_node is not None:
+            last = tr_node.body[-1]
+            clears = isinstance(last, ast.Expr) and isinstance(last.value, ast.Call) and \
+                isinstance(last.value.func, ast.Attribute) and last.value.func.attr == "clear" and \
+                isinstance(last.value.func.value, ast.Attribute) and last.value.func.value.attr == "instantiated_segments"
+            self.shape = "to_root: empties instantiated_segments at its end (repaired shape)" if clears else \
+                "to_root: leaves instantiated_segments alone (shape before fixes/C18-toroot-invalidates-cache.patch)"
+            if not clears and ("ArrayMorphology", "to_root") in texts:
+                self.gaps.append("ArrayMorphology.to_root does not end with self.segments.instantiated_segments.clear(): "
+                                 "segments handed out before a re-rooting are returned again afterwards (un-repaired "
+                                 "C18:view-stale-after-toroot; the translation is still emitted, c18_gen_to_root will not check)")
         # emit in an order where callees come first
         order, seen = [], set()
 
@@ -763,6 +777,7 @@ def translate_source(src):
         tr = Translator(src)
         parts = tr.run()
         gaps = list(tr.gaps)
+        parts = ["-- shape found: " + tr.shape] + parts
     except SyntaxError as e:
         return HEADER + "end NmlVerif.Gen.ArrayMorph\n", ["neuroml/arraymorph.py does not parse: %s" % e]
     return HEADER + "\n\n".join(parts) + "\n\nend NmlVerif.Gen.ArrayMorph\n", gaps
